@@ -1,20 +1,27 @@
 """C11 — periodic local grids contain every periodic image inside the sphere exactly once.
 
-gen:   hand model (coq/C11/C11_model.v); the anchored source units are hashed into the evidence.
-prove: coq/C11/*.v  (theorems at R: complete / sound / no_duplicates / wrap_irrelevant / ... and the
-       *_refuted theorems for the three defects of the pinned code).
-tie:   random dyadic lattices/points/centres/radii (radius^2 off every squared distance), dimensions 1..3,
-       0..dim lattice vectors, both array layouts (points (N,M) -> general path, points (N,) -> 1-D path),
-       wrap on/off.  Each case: run PeriodicGrid(...).get_localgrid on the implementation, compare the sorted
-       multiset of (parent index, position, weight)
-         (a) with the Coq model evaluated at bigQ by vm_compute (ctx.coq_bool_cases), including the kind of
-             exception, the integer box (exact Python mirror == model ranges) and the stored points,
-         (b) with a brute-force enumeration of the images in a safely large box (the property's own oracle,
-             integer arithmetic).
-       Section hypotheses validated per run: recivecs @ realvecs.T = 1 (exactly for the rational reciprocal
-       vectors given to the model, which are compared with the code's SVD pseudo-inverse) and the ball-query
-       contract of cKDTree.query_ball_point.
-search: the brute-force oracle, on every case and on an additional sweep without Coq.
+gen:   hand model (coq/C11/C11_model.v, mirroring periodicgrid.py after the fixes of the empty-sphere / negative 1-D
+       vector / 1-D no-lattice defects); the anchored source units are hashed into the evidence.
+prove: coq/C11/*.v  (theorems at R: complete / local_grid_exact / no_duplicates / wrap_irrelevant / empty sphere /
+       1-D path of either sign / no lattice = plain grid / ranges = the code's ceil..floor formulas).
+tie:   two input families, dimensions 1..3, 0..dim lattice vectors, both array layouts for dimension 1, wrap on/off,
+       every argument presented in several forms (float / integer dtype, lists, Python scalars, 0-d arrays,
+       non-contiguous views, Fortran order, integer radius):
+         generic      random dyadic lattices (orthogonal / negative / short / long / strongly skewed / random), radius^2
+                      off every squared distance (no image on the sphere: robust against float rounding);
+         commensurate axis-aligned lattices with constants +-2^e, points/centres on the 1/4 mesh, the radius IS the
+                      distance of a chosen image (Pythagorean offsets), so images lie exactly on the closed sphere.
+                      Restriction: used as an exact test only when recivecs, spacings and frac_intvls computed by the
+                      implementation are bit-exact (checked per case; then every later float operation is exact too).
+       Each case: run PeriodicGrid(...).get_localgrid on the implementation, compare the sorted multiset of
+       (parent index, position, weight)
+         (a) with the Coq model evaluated at bigQ by vm_compute (ctx.coq_bool_cases), together with the integer box
+             (exact harness mirror == model ranges) and the stored points,
+         (b) with a brute-force enumeration of the images in a safely large box (the property's own oracle, exact
+             integer arithmetic, closed ball).
+       Section hypotheses validated per run: recivecs @ realvecs.T = 1 and the cKDTree ball-query contract.
+search: the brute-force oracle, on every case and on an additional sweep without Coq; a broken model tie is reported
+       through ctx.broken_tie with the failing inputs found by the oracle as candidates.
 """
 from __future__ import annotations
 
@@ -56,8 +63,6 @@ Fixpoint ins (x : qitem) (l : list qitem) : list qitem :=
 Definition isort (l : list qitem) : list qitem := fold_right ins [] l.
 Fixpoint leqb {X} (e : X -> X -> bool) (a b : list X) : bool :=
   match a, b with [] , [] => true | x :: r, y :: s => e x y && leqb e r s | _, _ => false end.
-Definition kind_of (o : outcome qitem) : Z :=
-  match o with Ok _ => 0 | AssertFail => 1 | EmptyConcat => 2 | Broadcast => 3 end%Z.
 (* b_k . a_l = delta_kl, exactly *)
 Definition dualb (B A : list qv) : bool :=
   Nat.eqb (length B) (length A) &&
@@ -69,25 +74,22 @@ Fixpoint leqb2 {X Y} (e : X -> Y -> bool) (a : list X) (b : list Y) : bool :=
   match a, b with [] , [] => true | x :: r, y :: s => e x y && leqb2 e r s | _, _ => false end.
 Definition boxeq2 (rs : list (list Z)) (lit : list (Z * Z)) : bool :=
   leqb2 (fun (r : list Z) (lh : Z * Z) => leqb Z.eqb r (zrange (fst lh) (snd lh))) rs lit.
-(* one correspondence case.  path1d: which array layout; kind/obs: what the implementation did;
-   code_ok: the implementation's answer equals the brute-force oracle (then a model that raises is only
-   pessimistic); region: the input lies where the model is proved to violate the property (1-D layout with a
-   negative or no lattice vector), an implementation that satisfies the property there is accepted; loose: a fractional coordinate lies exactly on a boundary, so that the float box of the
-   implementation may differ from the exact one: AssertFail / EmptyConcat (both: nothing in the sphere) are
-   not distinguished then; box: exact integer bounds computed by the harness mirror; spts: stored points (or None) *)
+(* one correspondence case.  path1d: which array layout; impl_ok/obs: what the implementation returned;
+   box: exact integer bounds computed by the harness mirror; spts: stored points (None when a fractional
+   coordinate lies on a cell boundary and the float computation is not known to be exact) *)
 Definition chk (path1d : bool) (A B : list qv) (wrap : bool) (pts : list qv) (wts : list bigQ) (c : qv) (r : bigQ)
-               (kind : Z) (loose : bool) (obs : list qitem) (code_ok region : bool) (box : option (list (Z * Z)))
+               (impl_ok : bool) (obs : list qitem) (box : option (list (Z * Z)))
                (spts : option (list qv)) : bool :=
   let m := (if path1d then local1d else local) QOps 0%bigQ (exact_ball QOps) A B wrap pts wts c r in
   let g := build QOps A B wrap pts in
-  (dualb B A || (path1d && null B)) &&
+  dualb B A &&
   match box with
   | None => true
   | Some lit => boxeq2 (if path1d then match B with b :: _ => ranges1d QOps (fst (fst b)) g (fst (fst c)) r | [] => [] end
                         else ranges QOps B g c r) lit
   end &&
   match spts with None => true | Some l => leqb veq (map fst g) l end &&
-  ((((kind_of m =? kind)%Z || (loose && ((kind_of m =? 1) || (kind_of m =? 2)) && ((kind =? 1) || (kind =? 2)))%Z) && leqb ieq (isort (items m)) (isort obs)) || (code_ok && (negb (is_ok m) || region))).
+  impl_ok && leqb ieq (isort m) (isort obs).
 """
 
 
@@ -128,30 +130,116 @@ def fceil(x: Fr) -> int:
     return -((-x.numerator) // x.denominator)
 
 
-class Case:
-    """All numbers exact Fractions; vectors have length M (padded to 3 when printed)."""
+CENTER_FORMS = ("f64", "i64", "list", "tuple", "scalar", "npscalar", "0d", "view")
+ARRAY_FORMS = ("f64", "i64", "view", "F")
 
-    def __init__(self, M, path1d, A, pts, wts, wrap, c, r, tag):
+
+class Case:
+    """All numbers exact Fractions; vectors have length M (padded to 3 when printed).
+    forms: how each argument is handed to the implementation (dtype / container / memory layout)."""
+
+    def __init__(self, M, path1d, A, pts, wts, wrap, c, r, tag, forms=None):
         self.M, self.path1d, self.A, self.pts, self.wts, self.wrap, self.c, self.r, self.tag = M, path1d, A, pts, wts, wrap, c, r, tag
         self.K = len(A)
         self.B = [[Fr(1) / A[0][0]]] if (path1d and self.K == 1) else recip(A)
+        self.forms = {"pts": "f64", "rv": "f64", "w": "f64", "c": "f64", "r": "float"}
+        self.forms.update(forms or {})
+        self.exact = False   # commensurate family: set by the harness when the float pipeline is verified exact
 
     def key(self):
         def fl(v):
             return "[" + ",".join(str(x) for x in v) + "]"
+        f = self.forms
+        fs = "" if all(f[k] == d for k, d in (("pts", "f64"), ("rv", "f64"), ("w", "f64"), ("c", "f64"), ("r", "float"))) else \
+            f":forms={f['pts']}/{f['rv']}/{f['w']}/{f['c']}/{f['r']}"
         return (f"{'1d' if self.path1d else 'nd'}:M={self.M}:A=[{','.join(fl(a) for a in self.A)}]:wrap={int(self.wrap)}:"
-                f"pts=[{','.join(fl(p) for p in self.pts)}]:c={fl(self.c)}:r={self.r}")
+                f"pts=[{','.join(fl(p) for p in self.pts)}]:c={fl(self.c)}:r={self.r}{fs}")
+
+    # ---- the actual Python objects and a source text that rebuilds them
+    def _arr(self, rows, form, one, ncol):
+        """rows: list of Fraction vectors -> (object, source)."""
+        if one:
+            vals = [r[0] for r in rows]
+            lit = "[" + ", ".join(_num_src(v, form == "i64") for v in vals) + "]"
+            base = np.array([int(v) if form == "i64" else float(v) for v in vals], dtype=(np.int64 if form == "i64" else float)).reshape(len(vals))
+            src = f"np.array({lit}, dtype={'np.int64' if form == 'i64' else 'float'}).reshape({len(vals)})"
+        else:
+            lit = "[" + ", ".join("[" + ", ".join(_num_src(x, form == "i64") for x in r) + "]" for r in rows) + "]"
+            base = np.array([[int(x) if form == "i64" else float(x) for x in r] for r in rows],
+                            dtype=(np.int64 if form == "i64" else float)).reshape(len(rows), ncol)
+            src = f"np.array({lit}, dtype={'np.int64' if form == 'i64' else 'float'}).reshape({len(rows)}, {ncol})"
+        if form == "view":       # non-contiguous view into a larger buffer
+            big = np.full(tuple(2 * n + 1 for n in base.shape), 7.5)
+            sl = tuple(slice(1, None, 2) for _ in base.shape)
+            big[sl] = base
+            return big[sl], f"_view({src})"
+        if form == "F" and base.ndim == 2:
+            return np.asfortranarray(base), f"np.asfortranarray({src})"
+        return base, src
+
+    def build(self):
+        """-> (points, weights, realvecs, center, radius, source text of the call)"""
+        f = self.forms
+        one = self.path1d
+        pts, ps = self._arr(self.pts, f["pts"], one, self.M)
+        if self.K == 0 and (one or f["rv"] == "none"):
+            rv, rs = None, "None"
+        else:
+            rv, rs = self._arr(self.A, f["rv"], one, self.M)
+        w, ws = self._arr([[x] for x in self.wts], f["w"], True, 1)
+        cf = f["c"]
+        cv = self.c
+        integral = all(x.denominator == 1 for x in cv)
+        if cf in ("scalar", "npscalar", "0d") and not one:
+            cf = "list"
+        if cf == "i64" and not integral:
+            cf = "f64"
+        if one:
+            x = cv[0]
+            iv = integral and cf in ("i64", "scalar", "npscalar", "0d", "list", "tuple")
+            if cf in ("scalar", "list", "tuple", "view"):
+                c, cs = (int(x) if iv else float(x)), _num_src(x, iv)
+            elif cf == "npscalar":
+                c = np.int64(int(x)) if iv else np.float64(float(x))
+                cs = f"np.{'int64' if iv else 'float64'}({_num_src(x, iv)})"
+            elif cf == "i64":
+                c, cs = np.array(int(x)), f"np.array({int(x)})"
+            else:  # f64, 0d
+                c, cs = np.array(float(x)), f"np.array({float(x)!r})"
+        else:
+            if cf == "list":
+                c = [int(x) if integral else float(x) for x in cv]
+                cs = "[" + ", ".join(_num_src(x, integral) for x in cv) + "]"
+            elif cf == "tuple":
+                c = tuple(int(x) if integral else float(x) for x in cv)
+                cs = "(" + ", ".join(_num_src(x, integral) for x in cv) + ",)"
+            else:
+                c, cs = self._arr([cv], "i64" if cf == "i64" else ("view" if cf == "view" else "f64"), False, self.M)
+                c = c[0]
+                cs = cs + "[0]"
+        rf = f["r"]
+        rint = self.r.denominator == 1
+        if rf == "int" and rint:
+            r, rsrc = int(self.r), str(int(self.r))
+        elif rf == "npint" and rint:
+            r, rsrc = np.int64(int(self.r)), f"np.int64({int(self.r)})"
+        elif rf == "npfloat":
+            r, rsrc = np.float64(float(self.r)), f"np.float64({float(self.r)!r})"
+        else:
+            r, rsrc = float(self.r), repr(float(self.r))
+        src = f"PeriodicGrid({ps}, {ws}, {rs}, wrap={self.wrap}).get_localgrid({cs}, {rsrc})"
+        return pts, w, rv, c, r, src
 
     def py(self):
-        """Python expression reproducing the call."""
-        def arr(rows, one):
-            if one:
-                return "np.array([" + ", ".join(repr(float(r[0])) for r in rows) + "])"
-            return "np.array([" + ", ".join("[" + ", ".join(repr(float(x)) for x in r) + "]" for r in rows) + "]).reshape(%d, %d)" % (len(rows), self.M)
-        rv = "None" if (self.K == 0 and self.path1d) else arr(self.A, self.path1d)
-        cc = repr(float(self.c[0])) if self.path1d else "np.array([" + ", ".join(repr(float(x)) for x in self.c) + "])"
-        return (f"PeriodicGrid({arr(self.pts, self.path1d)}, np.array({[float(w) for w in self.wts]}), {rv}, wrap={self.wrap})"
-                f".get_localgrid({cc}, {float(self.r)!r})")
+        return self.build()[5]
+
+
+def _num_src(x, as_int):
+    return str(int(x)) if as_int else repr(float(x))
+
+
+VIEW_HELPER = ("def _view(a):\n    big = np.full(tuple(2 * n + 1 for n in a.shape), 7.5)\n"
+               "    sl = tuple(slice(1, None, 2) for _ in a.shape)\n    big[sl] = a\n    return big[sl]\n")
 
 
 def pad3(v):
@@ -186,20 +274,12 @@ class _ItShim:
 
 
 def run_impl(case: Case):
-    """-> dict(kind, items (sorted exact), exc, box, spts, recivecs, spacings)"""
+    """-> dict(kind, items (sorted exact), exc, box, spts, recivecs, spacings, frac_intvls)"""
     import grid.periodicgrid as pg
 
-    one = case.path1d
-    if one:
-        pts = np.array([float(p[0]) for p in case.pts])
-        rv = None if case.K == 0 else np.array([float(a[0]) for a in case.A])
-        c = float(case.c[0])
-    else:
-        pts = np.array([[float(x) for x in p] for p in case.pts]).reshape(len(case.pts), case.M)
-        rv = np.array([[float(x) for x in a] for a in case.A]).reshape(case.K, case.M)
-        c = np.array([float(x) for x in case.c])
-    w = np.array([float(x) for x in case.wts])
-    out = {"kind": None, "items": [], "exc": None, "box": None, "spts": None, "recivecs": None, "spacings": None, "center_ok": True}
+    pts, w, rv, c, r, _ = case.build()
+    out = {"kind": None, "items": [], "exc": None, "box": None, "spts": None, "recivecs": None, "spacings": None,
+           "frac_intvls": None, "center_ok": True}
     try:
         g = pg.PeriodicGrid(pts, w, rv, wrap=case.wrap)
     except Exception as e:  # noqa: BLE001
@@ -209,13 +289,14 @@ def run_impl(case: Case):
     out["spts"] = np.array(g.points, dtype=float).reshape(len(case.pts), -1)
     out["recivecs"] = np.array(g.recivecs, dtype=float).reshape(-1, case.M) if np.size(g.recivecs) else np.zeros((0, case.M))
     out["spacings"] = np.array(g.spacings, dtype=float).reshape(-1)
+    out["frac_intvls"] = np.array(g.frac_intvls, dtype=float).reshape(-1, 2)
     shim = _ItShim()
     saved = pg.__dict__.get("itertools")
     try:
         if saved is not None:
             pg.itertools = shim
         try:
-            lg = g.get_localgrid(c, float(case.r))
+            lg = g.get_localgrid(c, r)
         finally:
             if saved is not None:
                 pg.itertools = saved
@@ -233,25 +314,17 @@ def run_impl(case: Case):
         items.append((int(idx[k]), tuple(pad3([Fr(float(x)) for x in P[k]])), Fr(float(lg.weights[k]))))
     out["kind"] = "ok"
     out["items"] = sorted(items)
-    out["center_ok"] = bool(np.array_equal(np.asarray(lg.center, dtype=float).reshape(-1), np.asarray(c, dtype=float).reshape(-1)))
+    try:
+        out["center_ok"] = bool(np.array_equal(np.asarray(lg.center, dtype=float).reshape(-1),
+                                               np.array([float(x) for x in case.c])))
+    except Exception:  # noqa: BLE001
+        out["center_ok"] = False
     return out
-
-
-def exc_kind(exc):
-    """Map an exception of the implementation to the model's outcome kinds (1,2,3) or None."""
-    name, where, msg = exc
-    if name == "AssertionError" and where == "get_localgrid":
-        return 1
-    if name == "ValueError" and where == "get_localgrid" and "concatenate" in msg:
-        return 2
-    if name == "ValueError" and where == "__init__":   # (N,)*(0,): broadcast error, or empty reduction when N == 1
-        return 3
-    return None
 
 
 def exc_obs(exc):
     name, where, msg = exc
-    tag = "concatenate" if "concatenate" in msg else ""
+    tag = "finfo" if "finfo" in msg else ""
     return f"{name}@{where}" + (f"({tag})" if tag else "")
 
 
@@ -299,7 +372,7 @@ def oracle(case: Case):
 
 
 def exact_box(case: Case):
-    """Exact mirror of ilc_min/ilc_max (general path: 1/|b_k| spacing; 1-D path: signed spacing).
+    """Exact mirror of ilc_min/ilc_max (general path: 1/|b_k| spacing; 1-D path: |1/b| spacing).
     -> (list of (lo, hi), list of tie flags, list of per-point shifts z_i)."""
     B = case.B
     fr = [[fdot(b, p) for b in B] for p in case.pts]
@@ -313,7 +386,7 @@ def exact_box(case: Case):
         hi = max(f[k] for f in fr)
         fc = fdot(B[k], case.c)
         if case.path1d:
-            rb = case.r * B[k][0]
+            rb = case.r * abs(B[k][0])
             x, y = lo - fc - rb, hi - fc + rb
             box.append((fceil(x), ffloor(y)))
             ties.append(x.denominator == 1 or y.denominator == 1)
@@ -338,7 +411,35 @@ def exact_box(case: Case):
     return box, ties, shifts, fr
 
 
-# ----------------------------------------------------------------------------------------------- generator
+# ----------------------------------------------------------------------------------------------- generators
+def rand_forms(rng, case: Case, plain=0.35):
+    """Presentation of the arguments.  Integer dtypes only where the values are integers; an integer-dtype lattice
+    on the 2-D array path is a separate (known) finding and only sampled rarely."""
+    if rng.random() < plain:
+        return
+    f = case.forms
+    int_pts = all(x.denominator == 1 for p in case.pts for x in p)
+    int_rv = case.K > 0 and all(x.denominator == 1 for a in case.A for x in a)
+    f["pts"] = rng.choice(["f64", "view", "F"] + (["i64", "i64"] if int_pts else []))
+    rvc = ["f64", "view", "F"]
+    if int_rv and (case.path1d or rng.random() < 0.04):
+        rvc += ["i64", "i64"]
+    f["rv"] = rng.choice(rvc)
+    if case.K == 0 and not case.path1d and rng.random() < 0.5:
+        f["rv"] = "none"
+    f["w"] = rng.choice(["f64", "view"])
+    f["c"] = rng.choice(list(CENTER_FORMS) + ["i64", "list"])
+    f["r"] = rng.choice(["float", "int", "npint", "npfloat"])
+    # normalise to what is actually built (see Case.build)
+    integral = all(x.denominator == 1 for x in case.c)
+    if f["c"] in ("scalar", "npscalar", "0d") and not case.path1d:
+        f["c"] = "list"
+    if f["c"] == "i64" and not integral:
+        f["c"] = "f64"
+    if f["r"] in ("int", "npint") and case.r.denominator != 1:
+        f["r"] = "float"
+
+
 def rand_lattice(rng, M, K, kind):
     """K lattice vectors in dimension M with entries in Z/2, linearly independent."""
     half = lambda n: Fr(n, 2)  # noqa: E731
@@ -403,14 +504,27 @@ def unit_ball(K):
     return {0: 1.0, 1: 2.0, 2: math.pi, 3: 4.0 * math.pi / 3.0}[K]
 
 
+def cell_volume(A):
+    K = len(A)
+    if K == 0:
+        return 1.0
+    G = np.array([[float(fdot(a, b)) for b in A] for a in A])
+    return math.sqrt(abs(np.linalg.det(G)))
+
+
+def unit_ball(K):
+    return {0: 1.0, 1: 2.0, 2: math.pi, 3: 4.0 * math.pi / 3.0}[K]
+
+
 def rand_case(rng, big=False):
-    """Rejection: keep the brute-force image box enumerable."""
+    """Generic family (radius^2 off every squared distance).  Rejection: keep the brute-force image box enumerable."""
     while True:
         case = rand_case0(rng, big)
         n = 1
         for l in oracle_box(case):
             n *= 2 * l + 1
         if n * len(case.pts) <= 1_500_000:
+            rand_forms(rng, case)
             return case
 
 
@@ -431,10 +545,16 @@ def rand_case0(rng, big=False):
         if p not in pts:
             pts.append(p)
     wts = [Fr(3 * i + 1, 8) * (-1 if i % 3 == 2 else 1) for i in range(N)]
-    c = [Fr(rng.randint(-32, 32), 4) for _ in range(M)]
-    if rng.random() < 0.65:  # centre near a point -> populated spheres
-        p = rng.choice(pts)
-        c = [x + Fr(rng.randint(-6, 6), 4) for x in p]
+    if rng.random() < 0.4:   # integral centre (can be handed over with an integer dtype)
+        c = [Fr(rng.randint(-8, 8)) for _ in range(M)]
+        if rng.random() < 0.6:
+            p = rng.choice(pts)
+            c = [x + rng.randint(-1, 1) for x in p]
+    else:
+        c = [Fr(rng.randint(-32, 32), 4) for _ in range(M)]
+        if rng.random() < 0.65:  # centre near a point -> populated spheres
+            p = rng.choice(pts)
+            c = [x + Fr(rng.randint(-6, 6), 4) for x in p]
     # radius: aim at a given number of lattice images per point
     target = rng.choice([0.2, 1, 3, 8, 20] + ([60] if big else []))
     vol = cell_volume(A)
@@ -448,43 +568,107 @@ def rand_case0(rng, big=False):
     return Case(M, path1d, A, pts, wts, rng.random() < 0.5, c, Fr(r8, 8), kind)
 
 
+PYTH = {1: [(1,), (2,), (3,), (4,), (5,), (6,)],
+        2: [(1, 0), (2, 0), (3, 0), (5, 0), (3, 4), (4, 3), (6, 8), (5, 12)],
+        3: [(1, 0, 0), (2, 0, 0), (4, 0, 0), (3, 4, 0), (0, 3, 4), (1, 2, 2), (2, 1, 2), (2, 3, 6), (2, 2, 1), (4, 4, 2)]}
+
+
+def comm_case0(rng):
+    """Commensurate family: axis-aligned lattice, constants +-2^e, mesh 1/4, radius = distance of a chosen image."""
+    M = rng.choice([1, 1, 2, 2, 3])
+    path1d = M == 1 and rng.random() < 0.5
+    K = rng.choice([k for k in range(0, M + 1) for _ in range(1 + 2 * k)])
+    if path1d and K == 0 and rng.random() < 0.7:
+        K = 1
+    axes = rng.sample(range(M), K)
+    A = []
+    for ax in axes:
+        a = [Fr(0)] * M
+        a[ax] = rng.choice([-1, 1, 1]) * rng.choice([Fr(1, 2), Fr(1), Fr(1), Fr(2), Fr(4)])
+        A.append(a)
+    N = rng.randint(1, 4)
+    mesh = rng.choice([1, 2, 4])
+    span = rng.choice([1, 2, 3])
+    pts = []
+    N = min(N, (2 * span * mesh + 1) ** M)
+    while len(pts) < N:
+        p = [Fr(rng.randint(-span * mesh, span * mesh), mesh) for _ in range(M)]
+        if p not in pts:
+            pts.append(p)
+    wts = [Fr(3 * i + 1, 8) * (-1 if i % 3 == 2 else 1) for i in range(N)]
+    i = rng.randrange(N)
+    j = [rng.randint(-2, 2) for _ in range(K)]
+    q = [pts[i][d] + sum((j[k] * A[k][d] for k in range(K)), Fr(0)) for d in range(M)]
+    o = list(rng.choice(PYTH[M]))
+    rng.shuffle(o)
+    sc = rng.choice([Fr(1, 4), Fr(1, 2), Fr(1, 2), Fr(1)])
+    o = [Fr(x) * sc * rng.choice([-1, 1]) for x in o]
+    r = Fr(int(math.isqrt(int(sum(x * x for x in o) * 16))), 4)
+    assert r * r == sum(x * x for x in o)
+    c = [q[d] - o[d] for d in range(M)]
+    return Case(M, path1d, A, pts, wts, rng.random() < 0.5, c, r, "comm")
+
+
+def comm_case(rng):
+    while True:
+        case = comm_case0(rng)
+        n = 1
+        for l in oracle_box(case):
+            n *= 2 * l + 1
+        vol = cell_volume(case.A)
+        est = unit_ball(case.K) * float(case.r) ** case.K / vol * len(case.pts)
+        if n * len(case.pts) <= 1_500_000 and est <= 500 and float(case.r) <= 6:
+            rand_forms(rng, case)
+            return case
+
+
 def fixed_cases():
-    """Hand-picked cases: the documented defects' neighbours and classic shapes."""
+    """Hand-picked cases: former defects, the seeded-change examples and classic shapes."""
     F = Fr
     out = []
-    # skewed 2-D cell of the mutation analysis: a1=(1,0), a2=(7,1); images with |j1| up to 14 for r=2
-    out.append(Case(2, False, [[F(1), F(0)], [F(7), F(1)]], [[F(0), F(0)]], [F(1, 8)], False, [F(0), F(0)], F(17, 8), "fixed-skew"))
-    out.append(Case(2, False, [[F(1), F(0)], [F(7), F(1)]], [[F(0), F(0)], [F(3), F(2)]], [F(1, 8), F(1, 2)], True, [F(1, 4), F(-1, 2)], F(17, 8), "fixed-skew"))
-    # 1-D both layouts, positive vector, sphere larger than the cell
-    out.append(Case(1, True, [[F(4)]], [[F(0)], [F(1)], [F(2)]], [F(1, 8), F(1, 2), F(-7, 8)], False, [F(1)], F(27, 8), "fixed-1d"))
-    out.append(Case(1, False, [[F(4)]], [[F(0)], [F(1)], [F(2)]], [F(1, 8), F(1, 2), F(-7, 8)], False, [F(1)], F(27, 8), "fixed-1d"))
-    out.append(Case(1, False, [[F(-4)]], [[F(0)], [F(1)], [F(2)]], [F(1, 8), F(1, 2), F(-7, 8)], True, [F(1)], F(27, 8), "fixed-1d"))
-    # 3-D, one and two lattice vectors, negative and skewed
-    out.append(Case(3, False, [[F(2), F(1), F(0)], [F(0), F(-2), F(0)], [F(0), F(0), F(-1)]], [[F(0), F(0), F(0)], [F(5), F(-3), F(2)]],
-                    [F(1, 8), F(1, 2)], True, [F(1, 4), F(1, 4), F(0)], F(19, 8), "fixed-3d"))
-    out.append(Case(3, False, [[F(0), F(3), F(1)]], [[F(1), F(1), F(1)], [F(1), F(-9), F(0)]], [F(1, 8), F(1, 2)], False, [F(1), F(2), F(1)], F(29, 8), "fixed-3d"))
-    # no lattice vectors (plain grid) in 2-D and 3-D
-    out.append(Case(2, False, [], [[F(0), F(0)], [F(1), F(0)], [F(2), F(0)]], [F(1, 8), F(1, 2), F(-7, 8)], False, [F(1), F(0)], F(11, 8), "fixed-nolat"))
-    out.append(Case(3, False, [], [[F(0), F(0), F(0)], [F(1), F(0), F(2)]], [F(1, 8), F(1, 2)], True, [F(1), F(0), F(1)], F(13, 8), "fixed-nolat"))
+
+    def C(*a, **k):
+        out.append(Case(*a, **k))
+    # skewed 2-D cell a1=(1,0), a2=(7,1); images with |j1| up to 14 for r about 2
+    C(2, False, [[F(1), F(0)], [F(7), F(1)]], [[F(0), F(0)]], [F(1, 8)], False, [F(0), F(0)], F(17, 8), "fixed-skew")
+    C(2, False, [[F(1), F(0)], [F(7), F(1)]], [[F(0), F(0)], [F(3), F(2)]], [F(1, 8), F(1, 2)], True, [F(1, 4), F(-1, 2)], F(17, 8), "fixed-skew")
+    # 1-D both layouts, both signs, sphere larger than the cell
+    for a in (4, -4):
+        for one in (True, False):
+            C(1, one, [[F(a)]], [[F(0)], [F(1)], [F(2)]], [F(1, 8), F(1, 2), F(-7, 8)], False, [F(1)], F(27, 8), "fixed-1d")
+    C(1, True, [[F(-4)]], [[F(1)]], [F(1)], False, [F(1)], F(7, 2), "fixed-former-defect")
+    C(1, True, [], [[F(0)], [F(1)], [F(2)]], [F(1), F(2), F(3)], False, [F(1)], F(3, 2), "fixed-former-defect")
+    C(1, True, [], [[F(1)]], [F(1)], True, [F(7)], F(9, 8), "fixed-former-defect")
+    C(3, False, [[F(10), F(0), F(0)]], [[F(0), F(0), F(0)]], [F(1)], False, [F(5), F(0), F(0)], F(1), "fixed-former-defect")
+    C(3, False, [], [[F(0), F(0), F(0)]], [F(1)], False, [F(5), F(0), F(0)], F(1), "fixed-former-defect")
+    # 3-D, negative and skewed
+    C(3, False, [[F(2), F(1), F(0)], [F(0), F(-2), F(0)], [F(0), F(0), F(-1)]], [[F(0), F(0), F(0)], [F(5), F(-3), F(2)]],
+      [F(1, 8), F(1, 2)], True, [F(1, 4), F(1, 4), F(0)], F(19, 8), "fixed-3d")
+    C(3, False, [[F(0), F(3), F(1)]], [[F(1), F(1), F(1)], [F(1), F(-9), F(0)]], [F(1, 8), F(1, 2)], False, [F(1), F(2), F(1)], F(29, 8), "fixed-3d")
+    # images exactly on the sphere: 1-D a = 1/2, centre 3/8, r = 1 (both layouts); 2-D unit cell, one point, r = 5 (81 images)
+    for one in (True, False):
+        C(1, one, [[F(1, 2)]], [[F(-1, 8)]], [F(1)], False, [F(3, 8)], F(1), "fixed-comm", {"r": "int"})
+    C(2, False, [[F(1), F(0)], [F(0), F(1)]], [[F(0), F(0)]], [F(1)], False, [F(0), F(0)], F(5), "fixed-comm", {"c": "i64", "r": "int"})
+    C(3, False, [[F(2), F(0), F(0)], [F(0), F(1), F(0)], [F(0), F(0), F(1, 2)]], [[F(0), F(0), F(0)], [F(1), F(1, 2), F(1, 4)]], [F(1), F(2)],
+      True, [F(0), F(0), F(0)], F(3), "fixed-comm", {"c": "list"})
+    # integer / list / scalar centres with a non-integer lattice (displaced centres are not integers)
+    C(3, False, [[F(5, 2), F(0), F(0)], [F(0), F(3, 2), F(0)], [F(0), F(0), F(7, 2)]], [[F(0), F(0), F(0)], [F(1), F(1), F(1)]], [F(1), F(2)],
+      False, [F(0), F(0), F(0)], F(33, 8), "fixed-intcentre", {"c": "i64"})
+    C(2, False, [[F(3, 2), F(1, 2)], [F(0), F(5, 2)]], [[F(0), F(0)], [F(1), F(0)]], [F(1), F(2)], True, [F(1), F(-2)], F(35, 8), "fixed-intcentre", {"c": "list"})
+    C(1, True, [[F(3, 2)]], [[F(0)], [F(1)]], [F(1), F(2)], False, [F(0)], F(37, 8), "fixed-intcentre", {"c": "scalar"})
+    C(1, True, [[F(5, 2)]], [[F(0)], [F(1)]], [F(1), F(2)], True, [F(2)], F(45, 8), "fixed-intcentre", {"c": "npscalar", "pts": "i64"})
+    C(1, False, [[F(3, 2)]], [[F(0)], [F(1)]], [F(1), F(2)], False, [F(0)], F(37, 8), "fixed-intcentre", {"c": "tuple", "pts": "view"})
     return out
 
 
-# the canonical witnesses of the genuine defects (also the witnesses of the *_refuted theorems)
+# canonical witness of the remaining genuine defect (an integer-dtype lattice array on the 2-D array path)
 def witnesses():
     F = Fr
     return [
-        ("empty_refuted", "empty-sphere-assert",
-         Case(3, False, [[F(10), F(0), F(0)]], [[F(0), F(0), F(0)]], [F(1)], False, [F(5), F(0), F(0)], F(1), "witness"),
-         "a sphere containing no periodic image must give an empty local grid"),
-        ("empty_refuted", "empty-sphere-concat",
-         Case(3, False, [], [[F(0), F(0), F(0)]], [F(1)], False, [F(5), F(0), F(0)], F(1), "witness"),
-         "a sphere containing no point (no lattice vectors) must give an empty local grid"),
-        ("neg_1d_refuted", "neg-1d",
-         Case(1, True, [[F(-4)]], [[F(1)]], [F(1)], False, [F(1)], F(7, 2), "witness"),
-         "1-D grid with a negative lattice vector: the local grid around a grid point must contain that point"),
-        ("no_lattice_1d_refuted", "nolat-1d",
-         Case(1, True, [], [[F(0)], [F(1)], [F(2)]], [F(1), F(2), F(3)], False, [F(1)], F(3, 2), "witness"),
-         "1-D grid without lattice vectors must behave as the plain grid"),
+        ("int_lattice_dtype", "int-realvecs",
+         Case(2, False, [[F(2), F(0)], [F(0), F(2)]], [[F(0), F(0)], [F(1), F(1)]], [F(1), F(2)], False, [F(0), F(0)], F(3, 2), "witness",
+              {"rv": "i64"}),
+         "lattice vectors given as an integer-dtype array must give the same local grid as the equal float array"),
     ]
 
 
@@ -493,9 +677,7 @@ def items_lit(items):
     return "[" + "; ".join(f"({i}%nat, {qvec(p)}, {q_bigq(w)})" for i, p, w in items) + "]"
 
 
-def coq_case(case: Case, impl, code_ok: bool, box, with_spts, loose=False):
-    kind = 0 if impl["kind"] == "ok" else (exc_kind(impl["exc"]) or 9)
-    region = case.path1d and (case.K == 0 or case.A[0][0] < 0)
+def coq_case(case: Case, impl, box, with_spts):
     boxs = "None" if box is None else "Some [" + "; ".join(f"({z(a)}, {z(b)})" for a, b in box) + "]"
     spts = "None"
     if with_spts is not None:
@@ -503,7 +685,13 @@ def coq_case(case: Case, impl, code_ok: bool, box, with_spts, loose=False):
     B = case.B if case.B is not None else []
     return (f"chk {'true' if case.path1d else 'false'} {qlist(case.A)} {qlist(B)} {'true' if case.wrap else 'false'} "
             f"{qlist(case.pts)} [{'; '.join(q_bigq(w) for w in case.wts)}] {qvec(case.c)} {q_bigq(case.r)} "
-            f"{z(kind)} {'true' if loose else 'false'} {items_lit(impl['items'])} {'true' if code_ok else 'false'} {'true' if region else 'false'} ({boxs}) ({spts})")
+            f"{'true' if impl['kind'] == 'ok' else 'false'} {items_lit(impl['items'])} ({boxs}) ({spts})")
+
+
+def on_sphere(case: Case, orc):
+    r2 = case.r * case.r
+    c3 = pad3(case.c)
+    return [t for t, (i, q, w_) in enumerate(orc) if sum(((a - b) ** 2 for a, b in zip(q, c3)), Fr(0)) == r2]
 
 
 def classify(case: Case, impl, orc):
@@ -517,28 +705,39 @@ def classify(case: Case, impl, orc):
         extra = sorted(obs - exp)[:3]
         dup = len(impl["items"]) - len(obs)
         return (f"n={len(impl['items'])}/expected={len(orc)}",
-                f"local grid differs from the set of periodic images in the sphere: {len(impl['items'])} entries vs {len(orc)} expected; "
+                f"local grid differs from the set of periodic images in the closed sphere: {len(impl['items'])} entries vs {len(orc)} expected; "
                 f"missing e.g. {[(i, [str(x) for x in p]) for i, p, _ in missing]}, unexpected e.g. {[(i, [str(x) for x in p]) for i, p, _ in extra]}, duplicates {dup}"
                 + ("" if impl["center_ok"] else "; LocalGrid.center differs from the requested centre"))
     return (exc_obs(impl["exc"]),
             f"raises {impl['exc'][0]} in {impl['exc'][1]} ({impl['exc'][2][:60]}); expected a local grid with {len(orc)} entries")
 
 
-def defect_class(case: Case, impl, orc):
-    """Known defect classes of the pinned code (returns the witness key the instance belongs to)."""
-    if case.path1d and case.K == 0 and impl["kind"] == "raise" and exc_kind(impl["exc"]) == 3:
-        return "nolat-1d"
-    if case.path1d and case.K == 1 and case.A[0][0] < 0:
-        return "neg-1d"
-    if not orc and impl["kind"] == "raise" and exc_kind(impl["exc"]) == 1:
-        return "empty-sphere-assert"
-    if not orc and impl["kind"] == "raise" and exc_kind(impl["exc"]) == 2:
-        return "empty-sphere-concat"
+def defect_class(case: Case, impl):
+    """Known defect classes of the current code (returns the witness key the instance belongs to)."""
+    if (not case.path1d and case.K > 0 and case.forms["rv"] == "i64" and impl["kind"] == "raise"
+            and impl["exc"][0] == "ValueError" and impl["exc"][1] == "__init__" and "finfo" in impl["exc"][2]):
+        return "int-realvecs"
     return None
 
 
-def validate_hypotheses(ctx: Ctx, case: Case, impl, nfail):
-    """recivecs of the code vs the exact reciprocal vectors given to the model; spacings; wrapped points."""
+def float_pipeline_exact(case: Case, impl, fr):
+    """Commensurate family: recivecs, spacings and frac_intvls of the implementation are bit-exact.  With dyadic data
+    on an axis-aligned power-of-two lattice every later operation (recivecs @ center, radius / spacings, the sums,
+    squared distances in the k-d tree) is then exact as well."""
+    if impl["recivecs"] is None or case.B is None:
+        return False
+    Bf = np.array([[float(x) for x in b] for b in case.B]).reshape(case.K, case.M)
+    if impl["recivecs"].shape != Bf.shape or not np.array_equal(impl["recivecs"], Bf):
+        return False
+    sp = np.array([1.0 / math.sqrt(float(fdot(b, b))) for b in case.B])
+    if impl["spacings"].shape != sp.shape or not np.array_equal(impl["spacings"], sp):
+        return False
+    iv = np.array([[float(min(f[k] for f in fr)), float(max(f[k] for f in fr))] for k in range(case.K)]).reshape(case.K, 2)
+    return impl["frac_intvls"].shape == iv.shape and np.array_equal(impl["frac_intvls"], iv)
+
+
+def validate_hypotheses(ctx: Ctx, case: Case, impl):
+    """recivecs of the code vs the exact reciprocal vectors given to the model; stored points."""
     if impl["recivecs"] is None or case.B is None:
         return
     Bf = np.array([[float(x) for x in b] for b in case.B]).reshape(case.K, case.M)
@@ -546,7 +745,6 @@ def validate_hypotheses(ctx: Ctx, case: Case, impl, nfail):
         ctx.fail("hyp_dual", "recivecs:" + case.key(), None,
                  f"PeriodicGrid.recivecs differs from the exact reciprocal vectors (b_k.a_l = delta_kl): {impl['recivecs'].tolist()} vs {Bf.tolist()}",
                  {"reproduce": case.py()}, found_input=False)
-        nfail[0] += 1
     # stored points are the user's points plus lattice vectors
     if impl["spts"] is not None and case.K:
         for i, p in enumerate(case.pts):
@@ -557,7 +755,6 @@ def validate_hypotheses(ctx: Ctx, case: Case, impl, nfail):
                 ctx.fail("position_is_parent_plus_translation", "stored-points:" + case.key(), None,
                          f"stored point {i} = {impl['spts'][i].tolist()} is not the given point {[str(x) for x in p]} plus a lattice vector",
                          {"reproduce": case.py().split(".get_localgrid")[0] + ".points"})
-                nfail[0] += 1
                 break
 
 
@@ -571,7 +768,11 @@ def validate_ball(ctx: Ctx, rng, n):
         N = rng.randint(1, 12)
         P = np.array([[rng.randint(-8, 8) for _ in range(M)] for _ in range(N)], dtype=float)
         c = np.array([rng.randint(-40, 40) / 4 for _ in range(M)])
-        r = (2 * rng.randint(0, 40) + 1) / 8
+        r = rng.randint(1, 80) / 8
+        if rng.random() < 0.5:   # a point exactly on the sphere (closed ball)
+            r = rng.randint(1, 24) / 4
+            c = P[rng.randrange(N)].copy()
+            c[rng.randrange(M)] += rng.choice([-1, 1]) * r
         got = cKDTree(P).query_ball_point(c, r, p=2.0)
         exp = [i for i in range(N) if sum((P[i] - c) ** 2) <= r * r]
         if sorted(got) != exp or len(set(got)) != len(got):
@@ -596,6 +797,13 @@ def source_units(ctx: Ctx):
                                               "lines": [sub.lineno, sub.end_lineno], "sha": src_sha(seg)})
 
 
+def replay_of(case: Case, orc):
+    return {"reproduce": "import numpy as np\nfrom grid.periodicgrid import PeriodicGrid\n" + VIEW_HELPER + "lg = " + case.py()
+                         + "\nprint(sorted(zip(lg.indices.tolist(), np.asarray(lg.points).reshape(len(lg.indices), -1).tolist())))",
+            "expected_entries": len(orc),
+            "expected_first": [(i, [str(x) for x in p], str(w)) for i, p, w in orc[:12]]}
+
+
 def run(ctx: Ctx):
     import importlib
 
@@ -614,47 +822,62 @@ def run(ctx: Ctx):
     validate_ball(ctx, rng, 300 if ctx.quick else 3000)
 
     # ---------------- cases
-    n_rand = 1200 if ctx.quick else 12000
-    cases = [(None, None, w[2], w) for w in witnesses()] + [(None, None, c, None) for c in fixed_cases()]
+    n_rand = 800 if ctx.quick else 8000
+    n_comm = 500 if ctx.quick else 5000
+    cases = [(w[2], w) for w in witnesses()] + [(c, None) for c in fixed_cases()]
     for k in range(n_rand):
-        cases.append((None, None, rand_case(rng, big=(not ctx.quick and k % 7 == 0)), None))
+        cases.append((rand_case(rng, big=(not ctx.quick and k % 7 == 0)), None))
+    for k in range(n_comm):
+        cases.append((comm_case(rng), None))
 
     exprs, meta = [], []
-    nfail = [0]
-    known_ok = {}      # witness key -> reproduced?
-    instances = []     # (class key, case, impl, orc, verdict)
-    stats = {"edge_lo": 0, "edge_hi": 0, "nonempty": 0, "box_eq": 0, "box_cmp": 0, "box_tie": 0, "box_wider": 0, "box_narrower": 0}
-    for _, _, case, wit in cases:
+    stats = {"edge_lo": 0, "edge_hi": 0, "nonempty": 0, "box_eq": 0, "box_cmp": 0, "box_tie": 0, "box_wider": 0, "box_narrower": 0,
+             "comm": 0, "comm_exact": 0, "comm_on_sphere": 0, "comm_on_sphere_at_box_edge": 0, "int_centre": 0, "int_centre_nonint_lattice": 0,
+             "nondefault_forms": 0}
+    for case, wit in cases:
         impl = run_impl(case)
         orc, pairs = oracle(case)
-        verdict = classify(case, impl, orc)
-        code_ok = verdict is None
         ctx.case(case.key())
         ctx.count(f"M{case.M}:{'1d' if case.path1d else 'nd'}:K{case.K}:{case.tag}:{'wrap' if case.wrap else 'nowrap'}")
         ctx.count("sphere:" + ("empty" if not orc else ("1-9" if len(orc) < 10 else ("10-99" if len(orc) < 100 else ">=100"))))
-        validate_hypotheses(ctx, case, impl, nfail)
-        box = ties = None
+        for k_, v_ in case.forms.items():
+            ctx.count(f"form:{k_}={v_}")
+        if any(case.forms[k_] != d_ for k_, d_ in (("pts", "f64"), ("rv", "f64"), ("w", "f64"), ("c", "f64"), ("r", "float"))):
+            stats["nondefault_forms"] += 1
+        if case.forms["c"] in ("i64", "list", "tuple", "scalar", "npscalar") and all(x.denominator == 1 for x in case.c):
+            stats["int_centre"] += 1
+            if any(x.denominator != 1 for a in case.A for x in a):
+                stats["int_centre_nonint_lattice"] += 1
+        validate_hypotheses(ctx, case, impl)
+        box = None
         spts = None
-        loose = False
-        if case.B is not None and not (case.path1d and case.K == 0):
+        comm = case.tag in ("comm", "fixed-comm")
+        ons = on_sphere(case, orc) if comm else []
+        if case.B is not None:
             box, ties, shifts, fr = exact_box(case)
-            # stored points: exact comparison unless a fractional coordinate sits exactly on a cell boundary
             raw = [[fdot(b, p) for b in case.B] for p in case.pts]
             wrap_tie = case.wrap and any(x.denominator == 1 for f in raw for x in f)
             loose = bool(wrap_tie or any(ties))
-            if impl["spts"] is not None and not wrap_tie:
+            if comm:
+                stats["comm"] += 1
+                case.exact = impl["kind"] == "ok" and float_pipeline_exact(case, impl, fr)
+                stats["comm_exact"] += int(case.exact)
+            if impl["spts"] is not None and (not wrap_tie or case.exact):
                 spts = [[Fr(float(x)) for x in row] for row in impl["spts"]]
-            # coverage: is the outermost needed displacement on the edge of the enumerated box?
+            need = [[shifts[i][k] - j[k] for k in range(case.K)] for i, j in pairs]
             if orc:
                 stats["nonempty"] += 1
-                need = [[shifts[i][k] - j[k] for k in range(case.K)] for i, j in pairs]
                 if case.K and any(any(n[k] == box[k][0] for n in need) for k in range(case.K)):
                     stats["edge_lo"] += 1
                 if case.K and any(any(n[k] == box[k][1] for n in need) for k in range(case.K)):
                     stats["edge_hi"] += 1
-            # observed box of the implementation vs the exact mirror (information + tie of the formula)
+            if ons:
+                stats["comm_on_sphere"] += 1
+                if case.K and any(need[t][k] in box[k] for t in ons for k in range(case.K)):
+                    stats["comm_on_sphere_at_box_edge"] += 1
+            # observed box of the implementation vs the exact mirror
             if impl["box"] is not None and len(impl["box"]) == case.K and case.K:
-                if loose:
+                if loose and not case.exact:
                     stats["box_tie"] += 1
                 else:
                     stats["box_cmp"] += 1
@@ -664,89 +887,118 @@ def run(ctx: Ctx):
                         stats["box_wider"] += 1
                     else:
                         stats["box_narrower"] += 1
-        exprs.append(coq_case(case, impl, code_ok, box, spts, loose))
-        cls = None if code_ok else defect_class(case, impl, orc)
-        meta.append((case, impl, orc, verdict, cls, wit))
-        if len(ctx.samples) < 6 and orc and case.K:
-            ctx.sample({"call": case.py(), "n_local": len(impl["items"]), "n_oracle": len(orc), "impl_box": impl["box"], "exact_box": box})
+        # a commensurate case whose float pipeline is not verified exact is no exact test: an image on the sphere may
+        # legitimately be decided either way; such a case only takes part if nothing lies on the sphere
+        skip = bool(comm and not case.exact and impl["kind"] == "ok" and ons)
+        verdict = None if skip else classify(case, impl, orc)
+        if skip:
+            ctx.count("comm_skipped_inexact_float_pipeline")
+        exprs.append("true" if skip else coq_case(case, impl, box, spts))
+        meta.append((case, impl, orc, verdict, wit))
+        if len(ctx.samples) < 6 and orc and case.K and (comm or len(ctx.samples) < 3):
+            ctx.sample({"call": case.py(), "n_local": len(impl["items"]), "n_oracle": len(orc), "n_on_sphere": len(ons), "impl_box": impl["box"],
+                        "exact_box": box, "family": "commensurate" if comm else "generic"})
 
-    bad = set(ctx.coq_bool_cases("C11_cases", HDR, exprs, shard=30 if ctx.quick else 120))
+    tie_err = None
+    try:
+        bad = set(ctx.coq_bool_cases("C11_cases", HDR, exprs, shard=30 if ctx.quick else 120))
+    except Exception as e:  # noqa: BLE001  the model no longer compiles / evaluates
+        tie_err = e
+        bad = set()
 
     # ---------------- verdicts
-    for (case, impl, orc, verdict, cls, wit), idx in zip(meta, range(len(meta))):
+    known_ok = {}     # witness key -> (key, observed) of the reproduced finding
+    cands = []        # property failures with a concrete input: (obligation, key, observed, text, replay)
+    stale = []        # implementation == oracle, Coq model disagrees
+
+    def is_instance(case, impl):
+        cls = defect_class(case, impl)
+        return cls is not None and cls in known_ok and ctx.is_known(*known_ok[cls])
+
+    for idx, (case, impl, orc, verdict, wit) in enumerate(meta):
         if wit is not None:
             obl, wkey, _, text = wit
-            reproduced = verdict is not None and idx not in bad
-            known_ok[wkey] = reproduced
             if verdict is not None:
-                ctx.fail(obl, f"{wkey}:{case.key()}", verdict[0], f"{text}; the implementation {verdict[1]}",
-                         {"reproduce": case.py(), "expected_entries": len(orc)})
-            if idx in bad:
-                ctx.fail("corr_model", f"model:{case.key()}", exc_obs(impl["exc"]) if impl["exc"] else "ok",
-                         "the model of the defect witness and the implementation disagree", {"reproduce": case.py()},
-                         found_input=False)
-    nviol = 0
-    for (case, impl, orc, verdict, cls, wit), idx in zip(meta, range(len(meta))):
-        if wit is not None:
+                known_ok[wkey] = (f"{wkey}:{case.key()}", verdict[0])
+                cands.append((obl, f"{wkey}:{case.key()}", verdict[0], f"{text}; the implementation {verdict[1]}", replay_of(case, orc)))
+            elif idx in bad:
+                stale.append((case, exprs[idx]))
             continue
         if verdict is None:
             if idx in bad:
-                ctx.fail("corr_model", f"model:{case.key()}", None,
-                         "implementation agrees with the brute-force oracle but the Coq model (outcome / integer box / stored points / reciprocal vectors) does not",
-                         {"reproduce": case.py(), "coq_case": exprs[idx][:2000]}, found_input=False)
+                stale.append((case, exprs[idx]))
             continue
-        if cls is not None and known_ok.get(cls) and idx not in bad:
-            ctx.count(f"known-defect-instances:{cls}")
+        if is_instance(case, impl):
+            ctx.count(f"known-defect-instances:{defect_class(case, impl)}")
             continue
-        nviol += 1
-        if nviol > 8:   # every further failing input is only counted
-            ctx.count("further_failing_inputs")
-            continue
-        ctx.fail("local_grid_exact" if idx not in bad else "corr_model", case.key(), verdict[0],
-                 f"{case.py()} {verdict[1]}", {"reproduce": case.py(), "expected_entries": len(orc),
-                                                "expected_first": [(i, [str(x) for x in p], str(w)) for i, p, w in orc[:8]]})
+        cands.append(("local_grid_exact", case.key(), verdict[0], f"{case.py()} {verdict[1]}", replay_of(case, orc)))
     if stats["box_narrower"]:
         ctx.notes.append(f"{stats['box_narrower']} cases: the implementation enumerates a smaller integer box than the model (images can be lost)")
     if stats["box_wider"]:
         ctx.notes.append(f"{stats['box_wider']} cases: the implementation enumerates a larger integer box than the model (harmless for the property)")
 
     # ---------------- search: oracle sweep without Coq (cheap, many more inputs)
-    n_sweep = 8000 if ctx.quick else 120000
-    found = 0
+    n_sweep = 6000 if ctx.quick else 100000
     for k in range(n_sweep):
-        case = rand_case(rng, big=(k % 5 == 0))
+        comm = k % 3 == 0
+        case = comm_case(rng) if comm else rand_case(rng, big=(k % 5 == 0))
         impl = run_impl(case)
         orc, _ = oracle(case)
-        verdict = classify(case, impl, orc)
         ctx.case(None)
+        if comm and impl["kind"] == "ok" and impl["items"] != orc:
+            _, _, _, fr = exact_box(case)
+            if not float_pipeline_exact(case, impl, fr):
+                ctx.count("comm_skipped_inexact_float_pipeline")
+                continue
+        verdict = classify(case, impl, orc)
         if verdict is None:
             continue
-        cls = defect_class(case, impl, orc)
-        if cls is not None and known_ok.get(cls):
-            ctx.count(f"known-defect-instances:{cls}")
+        if is_instance(case, impl):
+            ctx.count(f"known-defect-instances:{defect_class(case, impl)}")
             continue
-        found += 1
-        if found <= 5:
-            ctx.fail("local_grid_exact", case.key(), verdict[0], f"{case.py()} {verdict[1]}",
-                     {"reproduce": case.py(), "expected_entries": len(orc)})
+        cands.append(("local_grid_exact", case.key(), verdict[0], f"{case.py()} {verdict[1]}", replay_of(case, orc)))
     ctx.count("oracle_sweep_cases", n_sweep)
 
-    ctx.cov["rule"] = ("random dyadic inputs: dimension 1..3, 0..dim lattice vectors (orthogonal / negative / short (entries 1/2) / long / "
-                       "strongly skewed / random), 1..6 integer points inside and outside the cell, wrap on/off, centres on the 1/4 grid, "
-                       "radii odd/8 (r^2 is never a squared distance), both array layouts for dimension 1; a case is distinct by its full input; "
-                       "non-trivial = sphere non-empty; edge_lo/edge_hi = cases where a needed displacement lies on the lower/upper edge of the "
-                       "enumerated integer box (an off-by-one bound loses an image there)")
+    # ---------------- report
+    reported = 0
+    for obl, key, obs, text, rp in cands:
+        if obl == "local_grid_exact":
+            reported += 1
+            if reported > 8:    # every further failing input is only counted
+                ctx.count("further_failing_inputs")
+                continue
+        ctx.fail(obl, key, obs, text, rp)
+    if tie_err is not None or stale:
+        err = tie_err if tie_err is not None else RuntimeError(
+            f"{len(stale)} cases: implementation agrees with the brute-force oracle but the Coq model (local grid / integer box / stored points / "
+            f"reciprocal vectors) does not, e.g. {stale[0][0].py()}")
+        ctx.broken_tie("model correspondence (coq/C11/C11_model.v vs periodicgrid.py)", err, [c_[1:] for c_ in cands])
+    failed_obl = [n for n, o in ctx.obligations.items() if o["status"] != "discharged"]
+    if failed_obl:
+        ctx.broken_tie("proofs (coq/C11)", RuntimeError("obligations no longer check: " + ", ".join(failed_obl)), [c_[1:] for c_ in cands])
+
+    ctx.cov["rule"] = ("two families. generic: random dyadic inputs, dimension 1..3, 0..dim lattice vectors (orthogonal / negative / short (entries 1/2) / long / "
+                       "strongly skewed / random), 1..6 integer points inside and outside the cell, wrap on/off, centres on the 1/4 grid (40% integral), "
+                       "radii odd/8 (r^2 is never a squared distance). commensurate: axis-aligned lattices with constants +-2^e, mesh 1/4, radius = distance of "
+                       "a chosen image (Pythagorean offsets), images exactly on the closed sphere; exact test only when recivecs/spacings/frac_intvls of the "
+                       "implementation are bit-exact (comm_exact of comm). Every argument in several forms (integer dtypes, lists, tuples, Python/NumPy scalars, "
+                       "0-d arrays, non-contiguous views, Fortran order, integer radius). A case is distinct by its full input incl. forms; non-trivial = sphere "
+                       "non-empty; edge_lo/edge_hi = a needed displacement lies on the lower/upper edge of the enumerated integer box; "
+                       "comm_on_sphere_at_box_edge = an image exactly on the sphere needs a displacement on the edge of the box")
     ctx.cov["case_stats"] = stats
-    ctx.cov["witnesses_reproduced"] = known_ok
+    ctx.cov["witnesses_reproduced"] = {k_: True for k_ in known_ok}
     ctx.trusted += [
-        "hand model coq/C11/C11_model.v of PeriodicGrid.__init__/get_localgrid (both array layouts), tied by exact correspondence (outcome kind, "
-        "multiset of (index, position, weight), integer box, stored points)",
+        "hand model coq/C11/C11_model.v of PeriodicGrid.__init__/get_localgrid (both array layouts), tied by exact correspondence (multiset of "
+        "(index, position, weight), integer box, stored points)",
         "NumOps instance at bigQ (Bignums) implements the ordered-field operations used at R; floor/ceil via Qfloor/Qceiling",
         "hypothesis dual B A (b_k . a_l = delta_kl): checked exactly in Coq for the rational reciprocal vectors of every case; the code's "
-        "recivecs (SVD pseudo-inverse, or 1/a on the 1-D path) compared with them to 1e-9",
-        "hypothesis ball_ok: cKDTree.query_ball_point(c, r, p=2) returns each index with |p_i - c| <= r exactly once (validated on random inputs each run)",
-        "brute-force oracle: integer arithmetic on coordinates scaled by 8, image box |j_k| <= |b_k| (r + max|p - c|) + 2",
+        "recivecs (SVD pseudo-inverse, or 1/a on the 1-D path) compared with them to 1e-9 (bit-exact in the commensurate family)",
+        "hypothesis ball_ok: cKDTree.query_ball_point(c, r, p=2) returns each index with |p_i - c| <= r exactly once (validated on random inputs each run, "
+        "including points exactly on the sphere)",
+        "brute-force oracle: integer arithmetic on coordinates scaled by 8, closed ball, image box |j_k| <= |b_k| (r + max|p - c|) + 2",
+        "commensurate family is an exact test only for inputs where the implementation's recivecs, spacings and frac_intvls are bit-exact "
+        "(axis-aligned lattices with power-of-two constants, dyadic points/centres/radii); otherwise cases with an image on the sphere are skipped",
         "the `itertools` name inside grid.periodicgrid is shadowed at run time to observe the enumerated box (information only)",
     ]
     ctx.assumptions += ["dimension <= 3 (vectors are triples)", "grid has at least one point", "radius finite and >= 0",
-                        "radii off every boundary in the correspondence (no |v| = r ties)"]
+                        "generic family: radii off every boundary; boundary images are tested in the commensurate family only (exact floats)"]
